@@ -44,7 +44,7 @@ func appendCall(v ssa.Value) (base ssa.Value, elems []ssa.Value, ok bool) {
 
 // C11 — a phenotype expresses exactly the enabled part of its genome.
 func C11(p *Prog, r *Run) {
-	r.Explanation = "Decided: (1) Genesis provenance on every path of its loops: one NewNNodeCopy(node, node.Trait) per genome node, appended to the all-list always, to the input list exactly for Input/Bias nodes and to the output list exactly for Output nodes, recorded as the node's PhenotypeAnalogue; one NewLinkWithTrait(gene trait, gene weight, analogue of in-node, analogue of out-node, gene recurrence) per gene, exactly when the gene is enabled, appended once to the target's Incoming and once to the source's Outgoing; control nodes only for enabled modules, wired to the analogues of the listed inputs/outputs; the network is assembled from exactly those lists and stored as the genome's phenotype; (2) Organism.Phenotype builds the network iff the cache is empty and stores it, UpdatePhenotype always rebuilds; (3) NodeCount = len(allNodes)+len(controlNodes), LinkCount sums Incoming of the base nodes plus Incoming and Outgoing of the control nodes, Complexity is their sum; (4) the graph view delegates to edgeBetween with the right direction flag and iterates allNodesMIMO, From/To return graph.Empty for an absent id; (5) no method with a gonum interface result wraps a possibly-nil pointer (typed nil). Not decided: edgeBetween's case analysis for control nodes."
+	r.Explanation = "Decided: (1) Genesis provenance on every path of its loops: one NewNNodeCopy(node, node.Trait) per genome node, appended to the all-list always, to the input list exactly for Input/Bias nodes and to the output list exactly for Output nodes, recorded as the node's PhenotypeAnalogue; one NewLinkWithTrait(gene trait, gene weight, analogue of in-node, analogue of out-node, gene recurrence) per gene, exactly when the gene is enabled, appended once to the target's Incoming and once to the source's Outgoing; control nodes only for enabled modules, wired to the analogues of the listed inputs/outputs; the network is assembled from exactly those lists and stored as the genome's phenotype; (2) Organism.Phenotype builds the network iff the cache is empty and stores it, UpdatePhenotype always rebuilds; (3) NodeCount = len(allNodes)+len(controlNodes), LinkCount sums Incoming of the base nodes plus Incoming and Outgoing of the control nodes, Complexity is their sum; (4) the graph view delegates to edgeBetween with the right direction flag and iterates allNodesMIMO, From/To return graph.Empty for an absent id; (5) no method with a gonum interface result wraps a possibly-nil pointer (typed nil); (6) From/To list a control node exactly when the scan of its links finds the id, for every control node and every present node; (7) Genesis fails only for a genome without genes or without output nodes. Not decided: edgeBetween's case analysis for control nodes."
 	gen := p.Func(PkgG, "Genome.Genesis")
 	r.Fn(FuncName(gen))
 	tm := NewTermer(gen)
@@ -287,6 +287,15 @@ func C11(p *Prog, r *Run) {
 			}
 		}
 		r.Check(okRet, "Genesis.result", p.Pos(gen.Pos()), "the assembled network is stored as the phenotype and returned", "the network returned is not the one stored as the genome's phenotype")
+	})
+
+	r.Rule("C11.7", "Genesis fails only for a genome without connection genes or without output nodes; whether genes are enabled never makes it fail", func() {
+		nets := CallsTo(gen, newNet)
+		if len(nets) != 1 {
+			r.Undecided("Genesis.failure", p.Pos(gen.Pos()), fmt.Sprintf("%d NewNetwork calls; the output list cannot be identified", len(nets)))
+			return
+		}
+		r.c11GenesisFailures(gen, tm, nets[0].Common().Args[1])
 	})
 
 	r.Rule("C11.2", "organism cache: Phenotype() expresses the genome iff nothing is cached and keeps the result; UpdatePhenotype always rebuilds", func() {
